@@ -372,36 +372,38 @@ Section Core.
       let as_kwargs := match ctor, ety with
                        | Some _, Some t => a_is_dict base && negb (conforms ct t (ADict []))
                        | _, _ => false end in
-      v5 <~ (if as_kwargs then
-               match ctor, base with
-               | Some c, ADict kvs =>
-                   kw <~ smap (fun p => a <~ str_key (fst p) ;; SOk (a, snd p)) kvs ;;
-                   build c (fold_left (fun acc p => kw_set (fst p) (snd p) acc) kw attrs)
-               | _, _ => SAny end
-             else
-               r <~ (match ctor with
-                     | Some c =>
-                         if a_is_missing base then
-                           match c with
-                           | SCSpec cc =>
-                               k <~ cls_for cc ;;
-                               let ps := ctor_params k in
-                               v <~ build c (filter (fun p => in_names (fst p) ps && negb (a_is_missing (snd p))) attrs) ;;
-                               SOk (v, match kws with Some _ => ps | None => [] end)
-                           | SCTy _ => v <~ build c [] ;; SOk (v, [])
-                           end
-                         else SOk (base, [])
-                     | None => SOk (base, []) end) ;;
-               let '(v, used) := r in
-               match attrs with
-               | [] => SOk v
-               | _ => match v with
-                      | ANone | AMissing => SErr ValueErr     (* keywords on nothing *)
-                      | _ => sfold (fun x p => if in_names (fst p) used || a_is_missing (snd p) then SOk x
-                                               else rec (SSetAttr x (fst p) (snd p)))
-                                   attrs v
-                      end
-               end) ;;
+      r <~ (if as_kwargs then
+              match ctor, base with
+              | Some c, ADict kvs =>
+                  kw <~ smap (fun p => a <~ str_key (fst p) ;; SOk (a, snd p)) kvs ;;
+                  v <~ build c (fold_left (fun acc p => kw_set (fst p) (snd p) acc) kw attrs) ;;
+                  SOk (v, [])
+              | _, _ => SAny end
+            else
+              match ctor with
+              | Some c =>
+                  if a_is_missing base then
+                    match c with
+                    | SCSpec cc =>
+                        k <~ cls_for cc ;;
+                        let ps := ctor_params k in
+                        v <~ build c (filter (fun p => in_names (fst p) ps && negb (a_is_missing (snd p))) attrs) ;;
+                        SOk (v, match kws with Some _ => ps | None => [] end)
+                    | SCTy _ => v <~ build c [] ;; SOk (v, [])
+                    end
+                  else SOk (base, [])
+              | None => SOk (base, []) end) ;;
+      let '(v, used) := r in
+      (* 5: the keywords not consumed by a constructor are assigned (so they win over dict entries) *)
+      v5 <~ (match attrs with
+             | [] => SOk v
+             | _ => match v with
+                    | ANone | AMissing => SErr ValueErr     (* keywords on nothing *)
+                    | _ => sfold (fun x p => if in_names (fst p) used || a_is_missing (snd p) then SOk x
+                                             else rec (SSetAttr x (fst p) (snd p)))
+                                 attrs v
+                    end
+             end) ;;
       v6 <~ (match f with Some g => afn g v5 | None => SOk v5 end) ;;
       sfold (fun x p => cur <~ read_attr x (fst p) ;;
                         t <~ afn (snd p) cur ;;
@@ -785,9 +787,9 @@ Section Helpers.
     end.
 
   Definition spec_helper (x : aval) (hp : shelper) (h : ahargs) : sres aval :=
-    if negb (ah_if h) then SOk x else
     match x with
     | AInst c _ =>
+        if negb (ah_if h) then SOk x else
         if mutates_in_place hp h && frozen_class c then
           (* frozen instances cannot be mutated in place; calls that change nothing are let through *)
           match hp with
